@@ -37,12 +37,13 @@ type connPlan struct {
 	lateAcks     []packet.Generic // sent right after the CONNACK (acknowledgements for requests of earlier connections)
 	closeErr     bool             // Close returns an error
 	dropGate     string           // the peer closes the connection when this gate opens (after the CONNACK)
+	noPubcomp    bool             // a PUBREL is not answered on this connection (the QoS 2 flow stays open after PUBREC)
 }
 
 // faultFree: the peer of this attempt answers everything promptly and never drops
 func (p connPlan) faultFree() bool {
 	return !p.refuse && p.failSend == 0 && p.holdSend == 0 && p.failRecv == 0 && (p.connack == "" || p.connack == "ok") &&
-		!p.dropAtOnce && p.dropGate == "" && p.dropAfter == 0 && p.dropAfterAck == 0 && len(p.noAck) == 0 && len(p.reject) == 0 && len(p.gateAck) == 0
+		!p.dropAtOnce && p.dropGate == "" && p.dropAfter == 0 && p.dropAfterAck == 0 && len(p.noAck) == 0 && !p.noPubcomp && len(p.reject) == 0 && len(p.gateAck) == 0
 }
 
 type item struct {
@@ -237,6 +238,10 @@ func (c *memConn) peer() {
 		case *packet.Disconnect:
 			return
 		case *packet.Pubrel:
+			if p.noPubcomp {
+				c.s.bump("pubrel")
+				continue
+			}
 			pc := packet.NewPubcomp()
 			pc.ID = v.ID
 			c.inject(pc)
